@@ -198,16 +198,24 @@ func unescapeHTML(s string) string {
 		} else if body[0] == '#' {
 			if body[1] == 'x' || body[1] == 'X' {
 				if num, err := strconv.ParseInt(body[2:], 16, 32); err == nil {
-					return string(rune(num))
+					return string(nulToReplacement(rune(num)))
 				}
 			} else {
 				if num, err := strconv.ParseInt(body[1:], 10, 32); err == nil {
-					return string(rune(num))
+					return string(nulToReplacement(rune(num)))
 				}
 			}
 		}
 		return entity
 	})
+}
+
+// CommonMark replaces the code point U+0000 with U+FFFD for security reasons.
+func nulToReplacement(r rune) rune {
+	if r == 0 {
+		return '\uFFFD'
+	}
+	return r
 }
 
 // Codec is used to render output.
